@@ -77,6 +77,17 @@ check("C10",
       "unordered) equals the bag of choices and that the length is the sum of products.",
       QRY_NOTE, "DESIGN.md section 5, C10")
 
+check("C16",
+      "TLA+ specification of print_decay_modes (spec/DecPrint.tla: Refused, Order, ValueKind) with TLC-checked sorting lemmas; "
+      "TLC-enumerated (table, options) cases printed by the real code and the parsed output validated by TLC",
+      "TLC enumerates every table (ranks with ties) x every option combination of the bounded universe, checks that the declarative "
+      "order equals the stable-sort machine, and emits the cases; each is printed by the real code (bfs drawn from values spanning "
+      "1e-12..1, mother by EvtGen or PDG name) and TLC judges refusal, one row per line, order with ties in file order, columns, "
+      "that the shown number fits the scaling kind the options select (exact rational arithmetic in the harness, 7 digits) and that "
+      "stored values are unchanged.",
+      "Trusts TLC, the stdout row parser of harness/c16.py (rows identified by their unique daughters) and Fraction arithmetic.",
+      "DESIGN.md section 5, C16")
+
 ALL = [f"C{i:02d}" for i in range(1, 21)]
 
 
